@@ -1019,7 +1019,9 @@ def observe_convergence(ctx, conv):
         worst_d = max(worst_d, d1)
         worst_g = max(worst_g, gmax)
         ctx.branch("observed.convergence_checked")
-        if d1 > 0.25 and d1 > 0.5 * d0:
+        # ("approach the optimum" is an asymptotic claim: within a dozen iterations only the DIRECTION is demanded -- a design that is
+        #  farther from the optimum than the start, or still more than a quarter of the box away without having come any closer)
+        if d1 > d0 + 0.05 or (d1 > 0.25 and d1 > 0.9 * d0):
             ctx.oracle_fail(f"after {len(out['trace'])} iterations the design is {d1:.3g} (relative to the box) away from the "
                             f"constructed optimum (start: {d0:.3g})", {"op": "run", "problem": describe(p)}, key=None)
         if gmax > 1e-2:
